@@ -218,13 +218,13 @@ IO_READ = 'byteorder::ReadBytesExt::'
 IO_WRITE = 'byteorder::WriteBytesExt::'
 STD_IO = {
     'std::io::Read::read_exact': 'read_exact',
-    'std::io::Read::read': 'read',
+    'std::io::Read::read': 'read_partial',
     'std::io::Read::read_to_end': 'read_to_end',
     'std::io::Read::read_vectored': 'read_vectored',
     'std::io::Read::read_buf': 'read_buf',
     'std::io::Read::read_to_string': 'read_to_string',
     'std::io::Write::write_all': 'write_all',
-    'std::io::Write::write': 'write',
+    'std::io::Write::write': 'write_partial',
     'std::io::Write::write_vectored': 'write_vectored',
     'std::io::Write::write_fmt': 'write_fmt_io',
     'std::io::Write::flush': 'flush',
